@@ -27,6 +27,7 @@ DRIVER = "Driver/C21.lean"
 OBLIGATIONS = ["NiftyVerif.C21." + t for t in (
     "context_restores", "unbalanced_body_raises", "ctx_only_balanced", "nested_contexts_restore", "draws_out",
     "draws_depend_only_on_seed", "ctx_out", "draws_depend_only_on_seed_full", "draws_same_from_any_two_states",
+    "ctx_result", "draws_depend_only_on_seed_general", "dipping_body_depends_on_history", "outer_spawn_depends_on_history",
     "spawn_children_distinct", "vi_key_schedule")]
 RULE = ("program = nested command list of <= 40 ops over {draw(kind,shape), spawn(n), ctx(seed|spawned child){body}, raise, "
         "raw push, raw pop}; 70% use contexts only, 30% also raw push/pop; non-trivial = contains a context and a draw; "
@@ -219,6 +220,14 @@ def _oracle_variants(case):
     if ref[0] != [(case["seed"], (0,)), (case["seed"], (1,))]:
         return (f"spawn_sseq(2) inside a fresh Context({case['seed']}) returns children {ref[0]}, not the context's own children",
                 dict(sig, what="spawn-not-from-top"))
+    # successive spawns of the same sequence give different children
+    _reset()
+    with rnd.Context(case["seed"]):
+        k1 = [tuple(int(k) for k in c.spawn_key) for c in rnd.spawn_sseq(2)]
+        k2 = [tuple(int(k) for k in c.spawn_key) for c in rnd.spawn_sseq(2)]
+    if len(set(k1 + k2)) != 4:
+        return (f"two successive spawn_sseq(2) calls inside one context return children {k1} and {k2}: not all distinct",
+                dict(sig, what="spawn-children-repeat"))
     # same sequence object nested
     if not pre():
         return None
@@ -361,6 +370,7 @@ def run(ctx):
              "jax_a": _spawn_run("jaxq" if ctx.quick else "jax", seed_j), "jax_b": _spawn_run("jaxd", seed_j)}
     if not ctx.quick:
         procs["jaxmaps"] = _spawn_run("jaxmaps", seed_j)
+        procs["jaxkeys"] = _spawn_run("jaxkeys", seed_j)
     # ---- stack machine: model vs real module ------------------------------------------------------------------
     progs = [_gen_prog(rng) for _ in range(ctx.n(400, 4000))]
     progs += [[["ctx", {"seed": 7}, [["push", {"seed": 9}]]]],                       # unbalanced: RuntimeError
@@ -381,6 +391,33 @@ def run(ctx):
         ctx.compare(dict(prog=p), impl, mv, note="nifty.cl.random on a generated program vs Model/Rng",
                     nontrivial=_has(p, "ctx") and _has(p, "draw"))
     ctx.traces_validated += len(progs)
+    # ---- the two decided witnesses of Props/C21 (why the general theorem excludes dipping bodies and outer seed
+    # sequences), replayed on the real module: the draws inside the context DO depend on the history there -------------
+    dip = [["pop"], ["draw", 0], ["push", {"seed": 9}]]
+    outer = [["ctx", {"last": 0}, [["spawn", 1], ["ctx", {"last": 0}, [["draw", 0]]]]]]
+    for name, body, preA, preB in (("dipping-body", dip, [], [["draw", 0]]),
+                                   ("outer-spawn", outer, [["spawn", 1]], [["spawn", 1], ["ctx", {"last": 0}, [["spawn", 2]]]])):
+        got = []
+        for pre in (preA, preB):
+            import nifty.cl.random as rnd
+            saved = (rnd._sseq, rnd._rng)
+            try:
+                _reset()
+                env = dict(draws=[], last=[])
+                _interp(pre, env)
+                n0 = len(env["draws"])
+                try:
+                    _interp([["ctx", {"seed": 7}, body]], env)
+                except (RuntimeError, IndexError):
+                    pass
+                got.append(env["draws"][n0:])
+            finally:
+                rnd._sseq, rnd._rng = saved
+        ctx.stat("witness:" + name)
+        ctx.case(dict(witness=name), nontrivial=True)
+        if got[0] == got[1]:
+            ctx.broke("correspondence", f"witness {name}: the model says the draws differ between the two histories, the real "
+                                        f"module draws the same values", name)
     # ---- oracle: restoration and seed-dependence on the real module ---------------------------------------------
     for i in range(ctx.n(150, 1500)):
         case = dict(pre=_gen_prog(rng), seed=rng.choice([1, 5, 7, 42]), reqs=[rng.randrange(9) for _ in range(rng.randrange(1, 5))],
@@ -396,9 +433,9 @@ def run(ctx):
     import time
     res = {}
     for k, p in procs.items():
-        left = max(5.0, ctx.n(170, 2400) - ctx.elapsed()) if ctx.quick else 2400
+        left = max(5.0, ctx.n(120, 2400) - ctx.elapsed()) if ctx.quick else 2400
         res[k] = _collect(p, left)
-    ctx.extra["runtime_tests"] = {k: (v if "error" in v else {kk: vv for kk, vv in v.items() if kk != "deviations"})
+    ctx.extra["runtime_tests"] = {k: (v if "error" in v else {kk: vv for kk, vv in v.items() if kk not in ("deviations", "runs")})
                                   for k, v in res.items()}
     for a, b, what in (("classic_a", "classic_b", "classic"), ("jax_a", "jax_b", "jax")):
         ra, rb = res[a], res[b]
@@ -413,9 +450,23 @@ def run(ctx):
                                {"site": "runtime", "what": what + "-not-reproducible"})
         if what == "classic" and ra.get("depth") != 2:
             ctx.notes.append(f"classic run leaves RNG stack depth {ra.get('depth')} (expected 2: base + the pushed seed)")
-        if what == "jax" and not ra.get("key_schedule_ok", True):
-            ctx.counterexample(dict(runtime="jax-key-schedule", seed=seed_j),
-                               "OptimizeVI state key after n updates is not split^n of the initial key (depends on sample mode)",
+        if what == "jax":
+            # tie of theorem vi_key_schedule: the keys OptimizeVI.update hands to draw_samples, RECORDED, must be
+            # sk_i = split(key_i)[1] with key_{i+1} = split(key_i)[0], also across iterations that reuse samples
+            ctx.traces_validated += len(ra.get("recorded_keys", []))
+            if not ra.get("key_schedule_ok", True):
+                ctx.counterexample(dict(runtime="jax-key-schedule", seed=seed_j, recorded=ra.get("recorded_keys"),
+                                        predicted=ra.get("predicted_keys")),
+                                   "the keys OptimizeVI.update passes to draw_samples are not split(key_i)[1] of a key that is "
+                                   "split once per iteration (the schedule depends on the sample mode)",
+                                   {"site": "runtime", "what": "key-schedule"})
+    rk = res.get("jaxkeys")
+    if rk is not None and "error" not in rk:
+        ctx.stat("runtime:jaxkeys:ran")
+        ctx.traces_validated += sum(len(v["recorded"]) for v in rk["runs"].values())
+        if not rk["key_schedule_ok"]:
+            ctx.counterexample(dict(runtime="jax-key-schedule", seed=seed_j, runs=rk["runs"]),
+                               "recorded sampling keys of OptimizeVI.update differ from the key-schedule model",
                                {"site": "runtime", "what": "key-schedule"})
     rm = res["jaxmaps"] if "jaxmaps" in res else res["jax_a"]
     if "error" in rm or "deviations" not in rm:
